@@ -179,6 +179,11 @@ inductive Result where
   | error (e : Err)
   deriving Repr, Inhabited
 
+/-- the answer is a contradiction -/
+def Result.isContr : Result → Bool
+  | .contr _ => true
+  | _ => false
+
 inductive Mode where
   | real | dark | exact | edark
   deriving Repr, BEq, DecidableEq, Inhabited
@@ -362,6 +367,36 @@ def extendSat (dfs : List DF) (v : Nat) : Result → Result
     | .error e => .error e
   | r => r
 
+/-- the redundant-variable branch of `solve` after the recursive call: give `j` its extreme value -/
+def redundantPost (elim : List DF) (j : Nat) (hasUp : Bool) : Result → Result
+  | .sat vmap =>
+    let evaluated := elim.map fun df =>
+      let e := evalExcept df.factoid 0 vmap j
+      let a := coeffAt df.factoid j
+      if hasUp then e / (-a) else -(e / a)
+    match (if hasUp then listMin evaluated else listMax evaluated) with
+    | some x => .sat (vmap.set j x)
+    | none => .error .value
+  | r => r
+
+/-- the mode dispatch at the end of `solve`; `rec` is `solve` one level down -/
+def elimDispatch (rec : Mode → XP → Result) (em : Mode) (isExact : Bool) (dfs : List DF) (v : Nat)
+    (dbExact dbDark : XP) : Result :=
+  match em with
+  | .exact =>
+    if isExact then extendSat dfs v (rec .exact dbExact)
+    else match rec .real dbExact with
+      | .contr d => .contr d
+      | .error e => .error e
+      | _ => dropContr (extendSat dfs v (rec .edark dbDark))
+  | .real => rec .real dbExact
+  | .edark =>
+    if isExact then dropContr (extendSat dfs v (rec .edark dbExact))
+    else dropContr (extendSat dfs v (rec .dark dbDark))
+  | .dark =>
+    if isExact then dropContr (extendSat dfs v (rec .dark dbExact))
+    else dropContr (extendSat dfs v (rec .dark dbDark))
+
 /-- `solve(em, db, width)`; `fuel` bounds the recursion depth (one variable disappears per level). -/
 def solve : Nat → Mode → XP → Nat → Result
   | 0, _, _, _ => .error .fuel
@@ -376,16 +411,7 @@ def solve : Nat → Mode → XP → Nat → Result
     | some (j, hasUp) =>
       let newDb := (dfs.filter fun df => coeffAt df.factoid j == 0).foldl insertDb []
       let elim := dfs.filter fun df => coeffAt df.factoid j != 0
-      match solve fuel em (.db newDb) width with
-      | .sat vmap =>
-        let evaluated := elim.map fun df =>
-          let e := evalExcept df.factoid 0 vmap j
-          let a := coeffAt df.factoid j
-          if hasUp then e / (-a) else -(e / a)
-        match (if hasUp then listMin evaluated else listMax evaluated) with
-        | some x => .sat (vmap.set j x)
-        | none => .error .value
-      | r => r
+      redundantPost elim j hasUp (solve fuel em (.db newDb) width)
     | none =>
       let ev := exactVar dfs width
       let isExact := match ev with | some (_ + 1) => true | _ => false     -- `if var_to_elim:` (index 0 is falsy)
@@ -396,22 +422,8 @@ def solve : Nat → Mode → XP → Nat → Result
         let uppers := dfs.filter fun df => decide (Py.idx df.factoid v < 0)
         let lowers := dfs.filter fun df => decide (Py.idx df.factoid v > 0)
         let newDb := (dfs.filter fun df => decide (Py.idx df.factoid v = 0)).foldl insertDb []
-        let dbExact := extendCrossProduct newDb true v lowers uppers
-        let dbDark := extendCrossProduct newDb false v lowers uppers
-        match em with
-        | .exact =>
-          if isExact then extendSat dfs v (solve fuel .exact dbExact width)
-          else match solve fuel .real dbExact width with
-            | .contr d => .contr d
-            | .error e => .error e
-            | _ => dropContr (extendSat dfs v (solve fuel .edark dbDark width))
-        | .real => solve fuel .real dbExact width
-        | .edark =>
-          if isExact then dropContr (extendSat dfs v (solve fuel .edark dbExact width))
-          else dropContr (extendSat dfs v (solve fuel .dark dbDark width))
-        | .dark =>
-          if isExact then dropContr (extendSat dfs v (solve fuel .dark dbExact width))
-          else dropContr (extendSat dfs v (solve fuel .dark dbDark width))
+        elimDispatch (fun m x => solve fuel m x width) em isExact dfs v
+          (extendCrossProduct newDb true v lowers uppers) (extendCrossProduct newDb false v lowers uppers)
 
 /-- `solve_matrix` (after fix C16-1: every input row is gcd-normalised, a false constant row is an
 immediate contradiction, true constant rows are dropped). -/
